@@ -225,8 +225,79 @@ end NemoVerif.Generated.C16Resolve
             "fingerprint": fingerprint(ce_loops[0])}
 
 
+GEN = "nemoguardrails/actions/llm/generation.py"
+
+
+def predef_shape():
+    """`LLMGenerationActions.generate_bot_message`, the branch for a bot intent that has a predefined message
+    (`if bot_intent in self.config.bot_messages:`) -> Generated/C16Predef.lean (the model `RailsInterp.predefUpdates` takes the shape):
+
+    * the message is rendered: exactly one `X = self._render_string(T, context)` directly in the branch;
+    * the one-shot flag: exactly one `context_updates["skip_output_rails"] = True` in the branch, either directly in the branch
+      (`flagOnlyIfUnchanged := false`: for EVERY predefined message) or as the only statement of an `if X == T:` / `if T == X:`
+      directly in the branch (`true`: only when rendering left the message unchanged); anything else is an unknown shape (TieBroken);
+    * the updates travel with the `BotMessage`: every `return ActionResult(...)` of the final `if bot_utterance:` statement passes
+      `context_updates=context_updates`, and `context_updates` is bound once (`context_updates = {}`)."""
+    fn = find_def(parse(GEN), "generate_bot_message", cls="LLMGenerationActions")
+    branch = next((n for n in fn.body if isinstance(n, ast.If) and ast.unparse(n.test) == "bot_intent in self.config.bot_messages"), None)
+    if branch is None:
+        raise TieBroken("generate_bot_message: the branch `if bot_intent in self.config.bot_messages:` is gone")
+    renders = [st for st in branch.body if isinstance(st, ast.Assign) and len(st.targets) == 1 and isinstance(st.value, ast.Call)
+               and ast.unparse(st.value.func) == "self._render_string" and len(st.value.args) == 2 and ast.unparse(st.value.args[1]) == "context"]
+    if len(renders) != 1:
+        raise TieBroken(f"generate_bot_message: expected ONE `… = self._render_string(…, context)` in the predefined branch, found {len(renders)}")
+    rendered, tpl = ast.unparse(renders[0].targets[0]), ast.unparse(renders[0].value.args[0])
+
+    def is_flag(st):
+        return (isinstance(st, ast.Assign) and len(st.targets) == 1 and ast.unparse(st.targets[0]) == "context_updates['skip_output_rails']"
+                and isinstance(st.value, ast.Constant) and st.value.value is True)
+
+    inside = [n for st in branch.body for n in ast.walk(st)]
+    flags = [n for n in inside if is_flag(n)]
+    mentions = [n for n in inside if isinstance(n, ast.Constant) and n.value == "skip_output_rails"]
+    if len(flags) != 1 or len(mentions) != 1:
+        raise TieBroken(f"generate_bot_message: expected ONE `context_updates[\"skip_output_rails\"] = True` in the predefined branch, found {len(flags)} (mentions: {len(mentions)})")
+    if any(isinstance(n, (ast.Return, ast.Raise, ast.Continue, ast.Break, ast.Try)) for n in inside):
+        raise TieBroken("generate_bot_message: the predefined branch has an early exit / exception handler")
+    pos = branch.body.index(renders[0])
+    only_if_unchanged = None
+    for st in branch.body[pos + 1:]:
+        if is_flag(st):
+            only_if_unchanged = False
+        elif isinstance(st, ast.If) and not st.orelse and len(st.body) == 1 and is_flag(st.body[0]):
+            t = st.test
+            if isinstance(t, ast.Compare) and len(t.ops) == 1 and isinstance(t.ops[0], ast.Eq) and \
+                    sorted([ast.unparse(t.left), ast.unparse(t.comparators[0])]) == sorted([rendered, tpl]) and rendered != tpl:
+                only_if_unchanged = True
+    if only_if_unchanged is None:
+        raise TieBroken("generate_bot_message: `skip_output_rails` is raised under a condition the model does not know "
+                        "(neither unconditionally after rendering nor `if <rendered> == <message>`)")
+    if len([v for v in find_assign(fn, "context_updates")]) != 1:
+        raise TieBroken("generate_bot_message: `context_updates` is bound more than once")
+    final = [n for n in fn.body if isinstance(n, ast.If) and ast.unparse(n.test) == "bot_utterance"]
+    if len(final) != 1:
+        raise TieBroken("generate_bot_message: the final `if bot_utterance:` statement is gone")
+    rets = [n for n in ast.walk(final[0]) if isinstance(n, ast.Return)]
+    for r in rets:
+        kw = {k.arg: ast.unparse(k.value) for k in getattr(r.value, "keywords", [])}
+        if kw.get("context_updates") != "context_updates" or "BotMessage" not in ast.unparse(r.value):
+            raise TieBroken("generate_bot_message: a result of the final statement does not carry `context_updates` with the BotMessage")
+    if not rets:
+        raise TieBroken("generate_bot_message: the final statement returns nothing")
+    body = f"""namespace NemoVerif.Generated.C16Predef
+/-- `LLMGenerationActions.generate_bot_message`, branch "the bot intent has a predefined message": is
+    `context_updates["skip_output_rails"] = True` executed only when rendering left the message unchanged (true), or for
+    every predefined message (false)? -/
+def flagOnlyIfUnchanged : Bool := {"true" if only_if_unchanged else "false"}
+end NemoVerif.Generated.C16Predef
+"""
+    write_generated("C16Predef", body)
+    return {"flag_only_if_unchanged": only_if_unchanged, "rendered": rendered, "message": tpl, "fingerprint": fingerprint(branch)}
+
+
 def run():
     resolve = resolve_shapes()
+    predef = predef_shape()
     tree = parse(PL)
     fn = find_def(tree, "compute_generation_log")
     ignored_actions = _str_list(fn, "ignored_actions")
@@ -279,4 +350,5 @@ end NemoVerif.Generated.C16
         "ignored_actions": ignored_actions, "ignored_flows": ignored_flows, "generation_flows": generation_flows,
         "guards": g,
         "reference_resolution": resolve,
+        "predefined_message_branch": predef,
     }
